@@ -502,6 +502,26 @@ pub fn recipe_line(c: &Cfg, s: &SrvCfg) -> String {
         s.sel, s.id, s.uid, s.version, s.license_new as u8, s.share, hex(&s.source), capsh.join(","), s.chal_flags, s.reactivate.map(|x| x.to_string()).unwrap_or("-".into()), s.reuse, s.jrefuse, s.ber, s.inputs.join(","))
 }
 
+/// "strings are encoded and terminated as specified": the fixed 32-byte clientName of the client core data (in the MCS
+/// connect-initial, the first frame after the negotiation) is well-formed UTF-16 up to its terminator — no half of a
+/// surrogate pair is left by the truncation to 15 units
+fn client_name_violation(r: &Run) -> Option<String> {
+    let f = r.log.frames.first()?;
+    let i = f.windows(4).position(|w| w == b"Duca")?;
+    let j = i + f[i..].windows(2).position(|w| w == [0x01, 0xc0])?;
+    let name = f.get(j + 4 + 20..j + 4 + 20 + 32)?;
+    let units: Vec<u16> = name.chunks(2).map(|c| u16::from_le_bytes([c[0], c[1]])).collect();
+    let upto = units.iter().position(|u| *u == 0)?;
+    let mut k = 0;
+    while k < upto {
+        let u = units[k];
+        if (0xD800..0xDC00).contains(&u) { if k + 1 < upto && (0xDC00..0xE000).contains(&units[k + 1]) { k += 2; continue; } return Some(format!("clientName holds a lone leading surrogate {:04x} at unit {}", u, k)); }
+        if (0xDC00..0xE000).contains(&u) { return Some(format!("clientName holds a lone trailing surrogate {:04x} at unit {}", u, k)); }
+        k += 1;
+    }
+    None
+}
+
 pub fn emit(em: &mut Emitter, c: &Cfg, s: &SrvCfg) -> Run {
     watch_begin(&recipe_line(c, s));
     let r = run_conn(c, s);
@@ -510,6 +530,7 @@ pub fn emit(em: &mut Emitter, c: &Cfg, s: &SrvCfg) -> Run {
     if r.status == "P" { obs = obs.viol("panic").tag("panic"); }
     else if let Some(v) = secrets_violation(c, &r) { obs = obs.viol(&v); }
     else if let Some(v) = sequence_violation(s, &r) { obs = obs.viol(&v); }
+    else if let Some(v) = client_name_violation(&r) { obs = obs.viol(&v); }
     let line = r.line.clone();
     em.case(&line, move || obs);
     r
